@@ -396,6 +396,9 @@ fn c10_wrap_and_seal() -> R {
     subs.push(w(l(1)));
     subs.push(w(w(n(l(1), vec![a(l(2), l(3))]))));
     subs.push(n(l(1), vec![a(el(l(2)), el(l(3))), a(l(4), l(5))]));
+    // an envelope whose subject is already encrypted (it is wrapped before being encrypted again: onion / forwarding use)
+    subs.push(n(en(l(1)), vec![a(l(2), l(3))]));
+    subs.push(en(n(l(1), vec![a(l(2), l(3))])));
     let s = &subs[choice(subs.len())];
     let e = build(s);
     // a leaf that holds the tagged CBOR of another envelope, as an assertion's object
@@ -428,6 +431,13 @@ fn c10_wrap_and_seal() -> R {
         ensure!(x.unseal(&sk2.1, &rk.0).is_err(), "unseal succeeded with a wrong sender key", "");
         ensure!(x.unseal(&sk.1, &other.0).is_err(), "unseal succeeded with a wrong recipient key", "");
         ensure!(x.unseal(&sk.1, &cross.0).is_err(), "unseal succeeded with a wrong recipient key", "other scheme");
+        // a metadata signature that the other sender made on ANOTHER document, lifted onto this one: still not a signature of this envelope
+        op("unseal (a foreign metadata signature lifted onto the sealed content)");
+        let other_doc = build(&l(990)).wrap_envelope().add_signature_opt(&sk2.0, sig_options(ssch), Some(SignatureMetadata::new().with_assertion(known_values::NOTE, "lifted")));
+        let lifted = must!(other_doc.assertion_with_predicate(known_values::SIGNED), "no signature on the other document");
+        let forged = must!(e.wrap_envelope().add_signature_opt(&sk.0, sig_options(ssch), None).add_assertion_envelope(lifted), "add refused").encrypt_to_recipient(&rk.1);
+        ensure!(forged.unseal(&sk2.1, &rk.0).is_err(), "unseal accepted a sender key that never signed this envelope (a metadata signature made on another document was attached)", "");
+        ensure!(forged.unseal(&sk.1, &rk.0).is_ok(), "unseal under the real sender failed once a foreign signature was attached", "");
     }
     Ok(())
 }
@@ -464,7 +474,7 @@ pub fn prop_c10() -> Prop {
                 bounds: "2 subjects x every recipient list of length 2..3 over 3 key pairs (2 X25519, 1 ML-KEM-512; duplicates allowed) added one at a time x any one entry's sealed message obscured in place by elide / encrypt / compress x with / without a stale hasRecipient entry with an elided object x each of the 3 private keys x every digest order",
                 api: &["add_recipient", "elide_removing_target_with_action", "recipients", "decrypt_subject_to_recipient"] },
             Scenario { name: "wrap_and_seal", f: c10_wrap_and_seal, thorough_only: false,
-                bounds: "8 envelopes (incl. bare wrapped and doubly wrapped ones, one holding an assertion with both sides elided; with / without an object leaf holding the tagged CBOR of an envelope; as built or after one of their assertions was offered again in elided / compressed form) x {X25519, ML-KEM-512} x {encrypt_to_recipient/decrypt_to_recipient, seal_opt/unseal over sender schemes Ed25519 / Schnorr / ECDSA / SSH-Ed25519 with its signing options (+ ML-DSA-44 thorough)} x right key, wrong key of the same scheme, key of the other scheme, wrong sender x every digest order",
+                bounds: "10 envelopes (incl. bare wrapped and doubly wrapped ones, two whose subject is / that are already encrypted, one holding an assertion with both sides elided; with / without an object leaf holding the tagged CBOR of an envelope; as built or after one of their assertions was offered again in elided / compressed form) x {X25519, ML-KEM-512} x {encrypt_to_recipient/decrypt_to_recipient, seal_opt/unseal over sender schemes Ed25519 / Schnorr / ECDSA / SSH-Ed25519 with its signing options (+ ML-DSA-44 thorough)} x right key, wrong key of the same scheme, key of the other scheme, wrong sender, wrong sender whose metadata signature over another document is attached x every digest order",
                 api: &["encrypt_to_recipient", "decrypt_to_recipient", "seal_opt", "unseal"] },
         ],
         assumptions: { let mut v = COMMON_ASSUMPTIONS.to_vec(); v.push("KEM / AEAD internals are executed natively with concrete keys (VERIF_SEED), not solver-decided"); v },
